@@ -83,3 +83,80 @@ package signing
 //@   loop 0 invariant (issecp(ec) && old(val(xi)) % curveN(ec) != 0) ==> val(wi) % curveN(ec) != 0
 //@   loop 1 invariant ((issecp(ec) && old(val(xi)) % curveN(ec) != 0) ==> val(wi) % curveN(ec) != 0) && 0 <= j && j <= pax && wi != nil && val(wi) >= 0 && modQ != nil && val(modQ) == curveN(ec) && fresh(bigWs) && len(bigWs) == pax && (forall k in 0..j :: (validPoint(bigWs[k]) && bigWs[k].curve == ec))
 //@   loop 2 invariant ((issecp(ec) && old(val(xi)) % curveN(ec) != 0) ==> val(wi) % curveN(ec) != 0) && 0 <= j && j < pax && 0 <= c && c <= pax && wi != nil && val(wi) >= 0 && modQ != nil && val(modQ) == curveN(ec) && fresh(bigWs) && len(bigWs) == pax && (forall k in 0..j :: (validPoint(bigWs[k]) && bigWs[k].curve == ec)) && validPoint(bigWj) && bigWj.curve == ec
+
+// ----- the round Start functions: shared state predicates -----
+//@ define sgN(round) = len(round.Parameters.parties.partyIDs)
+//@ define sgI(round) = round.Parameters.partyID.Index
+//@ define ecSignWF(round) = wfParams(round.Parameters) && issecp(round.Parameters.ec) && wfIDs(round.Parameters.parties.partyIDs) && round.temp != nil && round.key != nil && round.data != nil && round.out != nil && round.end != nil && 2 <= sgN(round) && sgN(round) <= 256 && 0 <= sgI(round) && sgI(round) < sgN(round) && len(round.ok) == sgN(round) && len(round.temp.signRound1Message1s) == sgN(round) && len(round.temp.signRound1Message2s) == sgN(round) && len(round.temp.signRound2Messages) == sgN(round) && len(round.temp.signRound3Messages) == sgN(round) && len(round.temp.signRound4Messages) == sgN(round) && len(round.temp.signRound5Messages) == sgN(round) && len(round.temp.signRound6Messages) == sgN(round) && len(round.temp.signRound7Messages) == sgN(round) && len(round.temp.signRound8Messages) == sgN(round) && len(round.temp.signRound9Messages) == sgN(round) && len(round.temp.cis) == sgN(round) && len(round.temp.bigWs) == sgN(round) && len(round.temp.betas) == sgN(round) && len(round.temp.c1jis) == sgN(round) && len(round.temp.c2jis) == sgN(round) && len(round.temp.vs) == sgN(round) && len(round.temp.pi1jis) == sgN(round) && len(round.temp.pi2jis) == sgN(round)
+// the signer-set view of the key data (BuildLocalSaveDataSubset): one entry per signer, own Paillier key well-formed
+//@ define ecSignKey(round) = len(round.key.PaillierPKs) == sgN(round) && len(round.key.NTildej) == sgN(round) && len(round.key.H1j) == sgN(round) && len(round.key.H2j) == sgN(round) && len(round.key.BigXj) == sgN(round) && len(round.key.Ks) == sgN(round) && (forall k in 0..sgN(round) :: (round.key.PaillierPKs[k] != nil && round.key.PaillierPKs[k].N != nil && round.key.NTildej[k] != nil && round.key.H1j[k] != nil && round.key.H2j[k] != nil)) && wfSK(round.key.PaillierSK) && gcd((powmod(val(round.key.PaillierSK.PublicKey.N) + 1, val(round.key.PaillierSK.LambdaN), nsq(round.key.PaillierSK.PublicKey)) - 1) / val(round.key.PaillierSK.PublicKey.N), val(round.key.PaillierSK.PublicKey.N)) == 1
+//@ define sg2slot(m) = (!isnil(m) && istype(msgcontent(m), "*ecdsa/signing.SignRound2Message") && cast(msgcontent(m), "*ecdsa/signing.SignRound2Message") != nil)
+// the k-th value sent on an error channel, viewed as the *tss.Error it is
+//@ define errAt(ch, k) = as(sentv(ch, k), "*tss.Error")
+
+//@ func (*SignRound2Message).UnmarshalProofBob
+//@   props C06 C10
+//@   requires m != nil
+//@   ensures result1 != nil ==> result0 == nil
+//@   ensures result1 == nil ==> (result0 != nil && fresh(result0) && wfBob(result0) && nnBob(result0))
+//@ func (*SignRound2Message).UnmarshalProofBobWC
+//@   props C06 C10 C17
+//@   requires m != nil && !isnil(ec)
+//@   ensures result1 != nil ==> result0 == nil
+//@   ensures result1 == nil ==> (result0 != nil && fresh(result0) && result0.ProofBob != nil && wfBob(result0.ProofBob) && nnBob(result0.ProofBob) && validPoint(result0.U) && result0.U.curve == ec)
+
+// round_3.go: Alice's end of both MtA runs with every peer j. A failure is reported
+// on the error channel with exactly the peer whose round-2 message failed.
+//@ define r3pre(round, j, ContextJ, errChs, Pj) = (round != nil && round.round2 != nil && round.round2.round1 != nil && round.round2.round1.base != nil && ecSignWF(round) && ecSignKey(round) && 0 <= j && j < sgN(round) && j != sgI(round) && sg2slot(round.temp.signRound2Messages[j]) && len(ContextJ) <= 1048576 && errChs != nil && Pj != nil && round.temp.cis[j] != nil)
+//@ func (*round3).Start$1
+//@   props C06 C05 C13
+//@   requires round != nil && round.round2 != nil && round.round2.round1 != nil && round.round2.round1.base != nil
+//@   requires ecSignWF(round)
+//@   requires ecSignKey(round)
+//@   requires 0 <= j && j < sgN(round) && j != sgI(round) && i == sgI(round) && len(alphas) == sgN(round) && errChs != nil && Pj != nil
+//@   requires sg2slot(round.temp.signRound2Messages[j]) && round.temp.cis[j] != nil
+//@   requires len(ContextJ) <= 1048576
+//@   modifies alphas[*], sent(errChs)
+//@   ensures sent(errChs) == old(sent(errChs)) || sent(errChs) == old(sent(errChs)) + 1
+//@   ensures [C05.no-error-means-a-share] sent(errChs) == old(sent(errChs)) ==> (alphas[j] != nil && fresh(alphas[j]) && 0 <= val(alphas[j]))
+//@   ensures [C05.blame-is-exactly-the-sender-of-the-failing-message] sent(errChs) == old(sent(errChs)) + 1 ==> (errAt(errChs, old(sent(errChs))) != nil && len(errAt(errChs, old(sent(errChs))).culprits) == 1 && errAt(errChs, old(sent(errChs))).culprits[0] == Pj && allocated(errAt(errChs, old(sent(errChs)))) && allocated(arr(errAt(errChs, old(sent(errChs))).culprits)))
+//@   ensures forall k in 0..len(alphas) :: (k != j ==> alphas[k] == old(alphas[k]))
+//@   ensures [earlier-errors-stay] forall m in 0..old(sent(errChs)) :: sentv(errChs, m) == old(sentv(errChs, m))
+//@ func (*round3).Start$2
+//@   props C06 C05 C13
+//@   requires round != nil && round.round2 != nil && round.round2.round1 != nil && round.round2.round1.base != nil
+//@   requires ecSignWF(round)
+//@   requires ecSignKey(round)
+//@   requires 0 <= j && j < sgN(round) && j != sgI(round) && i == sgI(round) && len(us) == sgN(round) && errChs != nil && Pj != nil
+//@   requires sg2slot(round.temp.signRound2Messages[j]) && round.temp.cis[j] != nil && (round.temp.bigWs[j] != nil ==> validPoint(round.temp.bigWs[j]))
+//@   requires len(ContextJ) <= 1048576
+//@   modifies us[*], sent(errChs)
+//@   ensures sent(errChs) == old(sent(errChs)) || sent(errChs) == old(sent(errChs)) + 1
+//@   ensures [C05.no-error-means-a-share] sent(errChs) == old(sent(errChs)) ==> (us[j] != nil && fresh(us[j]) && 0 <= val(us[j]))
+//@   ensures [C05.blame-is-exactly-the-sender-of-the-failing-message] sent(errChs) == old(sent(errChs)) + 1 ==> (errAt(errChs, old(sent(errChs))) != nil && len(errAt(errChs, old(sent(errChs))).culprits) == 1 && errAt(errChs, old(sent(errChs))).culprits[0] == Pj && allocated(errAt(errChs, old(sent(errChs)))) && allocated(arr(errAt(errChs, old(sent(errChs))).culprits)))
+//@   ensures forall k in 0..len(us) :: (k != j ==> us[k] == old(us[k]))
+//@   ensures [earlier-errors-stay] forall m in 0..old(sent(errChs)) :: sentv(errChs, m) == old(sentv(errChs, m))
+
+// element-level facts of the *big.Int lists this round reads (restated in loop invariants: the goroutines write other *big.Int slices)
+//@ define sg3Elems(round) = ((forall k in 0..sgN(round) :: (round.key.NTildej[k] != nil && round.key.H1j[k] != nil && round.key.H2j[k] != nil)) && (forall k in 0..sgN(round) :: (k != sgI(round) ==> (round.temp.cis[k] != nil && round.temp.betas[k] != nil && round.temp.vs[k] != nil))))
+//@ define peerOf(round, p) = (p != nil && 0 <= p.Index && p.Index < sgN(round) && p.Index != sgI(round) && round.Parameters.parties.partyIDs[p.Index] == p)
+//@ define errBlamesPeer(round, ch, m) = (errAt(ch, m) != nil && allocated(errAt(ch, m)) && allocated(arr(errAt(ch, m).culprits)) && len(errAt(ch, m).culprits) == 1 && peerOf(round, errAt(ch, m).culprits[0]))
+//@ func (*round3).Start
+//@   props C06 C05 C01
+//@   requires round != nil && round.round2 != nil && round.round2.round1 != nil && round.round2.round1.base != nil && ecSignWF(round) && ecSignKey(round)
+//@   requires [round-2-complete] forall j in 0..sgN(round) :: (j != sgI(round) ==> (sg2slot(round.temp.signRound2Messages[j]) && round.temp.cis[j] != nil && round.temp.betas[j] != nil && round.temp.vs[j] != nil && (round.temp.bigWs[j] != nil ==> validPoint(round.temp.bigWs[j]))))
+//@   requires [own-round-1-values] round.temp.k != nil && round.temp.gamma != nil && round.temp.w != nil && val(round.temp.k) >= 0 && val(round.temp.gamma) >= 0 && val(round.temp.w) >= 0 && len(round.temp.ssid) <= 4096
+//@   requires [session-id-has-no-spare-capacity] cap(round.temp.ssid) == len(round.temp.ssid)
+//@   modifies round.number, round.started, round.ok[*], round.temp.theta, round.temp.sigma, round.temp.signRound3Messages[*], sent(round.out)
+//@   ensures [C05.an-mta-failure-blames-only-peers-never-the-party-itself] (result != nil && !old(round.started)) ==> (len(result.culprits) > 0 && (forall c in 0..len(result.culprits) :: peerOf(round, result.culprits[c])))
+//@   ensures [C01.nothing-sent-on-error] result != nil ==> sent(old(round.out)) == old(sent(round.out))
+//@   loop 0 invariant !closed(errChs) && sg3Elems(round) && round.started && errChs != nil && fresh(errChs) && recvd(errChs) == 0 && 0 <= sent(errChs) && len(alphas) == sgN(round) && fresh(alphas) && len(us) == sgN(round) && fresh(us) && arr(alphas) != arr(us) && i == sgI(round) && sent(round.out) == old(sent(round.out)) && errChs != round.out
+//@   loop 0 invariant sent(errChs) == 0 ==> (forall k in 0..$iter :: (k != i ==> (alphas[k] != nil && us[k] != nil && fresh(alphas[k]) && fresh(us[k]))))
+//@   loop 0 invariant forall m in 0..sent(errChs) :: errBlamesPeer(round, errChs, m)
+//@   loop 1 invariant sg3Elems(round) && round.started && errChs != nil && 0 <= recvd(errChs) && recvd(errChs) <= sent(errChs) && fresh(culprits) && i == sgI(round) && sent(round.out) == old(sent(round.out)) && errChs != round.out && len(alphas) == sgN(round) && len(us) == sgN(round)
+//@   loop 1 invariant (recvd(errChs) > 0 ==> len(culprits) > 0) && (sent(errChs) == 0 ==> len(culprits) == 0)
+//@   loop 1 invariant forall m in 0..sent(errChs) :: (errBlamesPeer(round, errChs, m) && arr(errAt(errChs, m).culprits) != arr(culprits))
+//@   loop 1 invariant forall c in 0..len(culprits) :: peerOf(round, culprits[c])
+//@   loop 1 invariant sent(errChs) == 0 ==> (forall k in 0..sgN(round) :: (k != i ==> (alphas[k] != nil && us[k] != nil && fresh(alphas[k]) && fresh(us[k]))))
+//@   loop 2 invariant sg3Elems(round) && round.started && thelta != nil && sigma != nil && modN != nil && !fresh(modN) && val(modN) == secpN && len(alphas) == sgN(round) && len(us) == sgN(round) && sent(round.out) == old(sent(round.out))
+//@   loop 2 invariant forall k in 0..sgN(round) :: (k != sgI(round) ==> (alphas[k] != nil && us[k] != nil && fresh(alphas[k]) && fresh(us[k])))
